@@ -181,3 +181,25 @@ Lemma writer_schemes_lemma :
   forallb (fun R => (R <=? 4) || ((writer_V R =? 5) && (writer_len R =? 32))) [2; 3; 4; 5; 6] = true /\
   scheme_V4 (writer_V 2) 2 (writer_len 2) /\ scheme_V4 (writer_V 3) 3 (writer_len 3) /\ scheme_V4 (writer_V 4) 4 (writer_len 4).
 Proof. split; [reflexivity|]. unfold scheme_V4. cbn. repeat split; auto 10. Qed.
+
+(* ---------------------------------------------------------------- which leaves are encrypted *)
+From QV Require Import Crypto.EncWriter.
+
+(* leaves_encrypted (partial): for every class of leaf except strings in the dictionary of the cleartext
+   metadata stream, the writer encrypts exactly what the standard requires to be encrypted *)
+Lemma leaves_encrypted_partial_lemma : forall encrypt_metadata l,
+  l <> LfMetaDictString \/ encrypt_metadata = true ->
+  writer_encrypts encrypt_metadata l = iso_requires_encrypted encrypt_metadata l.
+Proof.
+  intros em l [H|H].
+  - destruct l, em; try reflexivity; exfalso; apply H; reflexivity.
+  - subst em. destruct l; reflexivity.
+Qed.
+
+(* leaves_encrypted refuted at full strength: with --cleartext-metadata a string in the DICTIONARY of the
+   catalog's metadata stream is written in the clear although only the stream's data is exempt
+   (known finding C05-F3; the check observes it on generated files) *)
+Lemma leaves_encrypted_refuted_lemma :
+  writer_encrypts false LfMetaDictString = false /\ iso_requires_encrypted false LfMetaDictString = true /\
+  forallb (fun l => Bool.eqb (writer_encrypts true l) (iso_requires_encrypted true l)) all_leaves = true.
+Proof. repeat split. Qed.
